@@ -20,13 +20,17 @@ def run_property(prop, tier, seed, model=None, quiet=False, write=True):
     if model is None:
         model = Model()
     results = []
+    broken = []     # rules that could not be evaluated (vanished anchor, vacuous instance count)
     for rule in spec['rules']:
-        res = rule(model)
-        if not isinstance(res, (list, tuple)):
-            res = [res]
-        for r in res:
-            r.check_floor()
-            results.append(r)
+        try:
+            res = rule(model)
+            if not isinstance(res, (list, tuple)):
+                res = [res]
+            for r in res:
+                r.check_floor()
+                results.append(r)
+        except AnalysisError as e:
+            broken.append('%s: %s' % (getattr(rule, '__name__', '?'), e))
     known = [k for k in report.load_known() if k.get('property') == prop]
     known_keys = {k['key']: k for k in known if k.get('status') == 'known'}
     viol = []
@@ -61,6 +65,12 @@ def run_property(prop, tier, seed, model=None, quiet=False, write=True):
                                                     'FAIL' if r.findings else 'ok'))
         for ln in lines:
             print(ln)
+        for b in broken:
+            print('ANALYSIS-ERROR property=%s rule %s' % (prop, b))
+    if broken and not viol:
+        # nothing this run reports can be believed as a pass: fail closed (exit 2); a violation
+        # found by another rule is still a violation
+        raise AnalysisError('; '.join(broken))
     return viol, results
 
 
@@ -91,6 +101,18 @@ def main(argv):
                     choices=['quick', 'thorough'])
     ap.add_argument('--replay')
     a = ap.parse_args(argv)
+    # a check that does not terminate is a broken check: fail closed
+    import signal
+
+    def _timeout(signum, frame):
+        print('ANALYSIS-ERROR property=%s the analysis did not terminate within its time limit' % a.prop)
+        sys.stdout.flush()
+        os._exit(2)
+    try:
+        signal.signal(signal.SIGALRM, _timeout)
+        signal.alarm(int(os.environ.get('VERIF_TIMEOUT', '1800')))
+    except (ValueError, OSError):
+        pass
     try:
         seed = int(os.environ.get('VERIF_SEED', '0') or 0)
     except ValueError:
